@@ -195,4 +195,129 @@ example :
         | .ok _ => true | .error _ => false) = true := by
   decide +kernel
 
+/-! ## Minimum distance -/
+
+/-- **The code's minimum distance over the protected region is at least 4**: every admissible
+alteration of a valid frame in one, two or three bit positions (reserved bits, payload, checksum, in
+any combination and at any distance from each other) is rejected as not valid. Weight 1 and 3 are odd
+(`odd_flips_rejected`), weight 2 is `double_flip_rejected`. -/
+theorem weight_le3_rejected (f : List UInt8) (x : Frame) (e : List Bool)
+    (hv : frameNew f = .ok x) (hl : f.length = x.frameLen) (ha : Admissible f.length e)
+    (hw : 1 ≤ e.count true ∧ e.count true ≤ 3) :
+    frameNew (applyErr f e) = .error .notValid := by
+  obtain ⟨h1, h3⟩ := hw
+  have hc : e.count true = 1 ∨ e.count true = 2 ∨ e.count true = 3 := by omega
+  rcases hc with h | h | h
+  · exact single_flip_rejected f x e hv hl ha h
+  · exact double_flip_rejected f x e hv hl ha h
+  · exact odd_flips_rejected f x e hv hl ha (by rw [h])
+
+/-- The same as a distance statement. Let `f` be a valid frame and `applyErr f e` a *different* byte
+string (`true ∈ e`) of the same length with the same preamble byte and the same length field
+(`Admissible`: the two differ only in reserved bits, payload and checksum). If `applyErr f e` is
+accepted as well, the two frames differ in at least 4 bit positions. -/
+theorem min_distance_ge4 (f : List UInt8) (x : Frame) (e : List Bool)
+    (hv : frameNew f = .ok x) (hl : f.length = x.frameLen) (ha : Admissible f.length e)
+    (hne : true ∈ e) (hacc : ∃ y, frameNew (applyErr f e) = .ok y) :
+    4 ≤ e.count true := by
+  have hpos : 0 < e.count true := List.count_pos_iff.mpr hne
+  apply Nat.le_of_not_lt
+  intro hlt
+  have hrej := weight_le3_rejected f x e hv hl ha ⟨hpos, by omega⟩
+  obtain ⟨y, hy⟩ := hacc
+  rw [hrej] at hy
+  cases hy
+
+/-- three bits (reserved, payload, checksum) on the 9-byte frame: hypotheses of
+`weight_le3_rejected` hold and the model evaluates to the predicted verdict -/
+example : Admissible 9 (flipAt 72 [9, 30, 71]) ∧
+    (1 ≤ (flipAt 72 [9, 30, 71]).count true ∧ (flipAt 72 [9, 30, 71]).count true ≤ 3) ∧
+    frameNew (applyErr (mkFrame 0 [0x3e, 0xd0, 0x00]) (flipAt 72 [9, 30, 71])) = .error .notValid := by
+  decide +kernel
+
+/-- `min_distance_ge4` is not vacuous: the generator laid over the payload (weight 14) is admissible,
+non-zero, and the altered frame is accepted; the theorem then yields `4 ≤ 14`. -/
+example :
+    4 ≤ (flipAt 72 [24, 25, 30, 31, 34, 37, 38, 41, 42, 43, 44, 45, 47, 48]).count true :=
+  min_distance_ge4 (mkFrame 0 [0x3e, 0xd0, 0x00]) (mkFrameResult 0 [0x3e, 0xd0, 0x00])
+    (flipAt 72 [24, 25, 30, 31, 34, 37, 38, 41, 42, 43, 44, 45, 47, 48])
+    (by decide +kernel) (by decide +kernel) (by decide +kernel) (by decide +kernel)
+    (by
+      have h : (match frameNew (applyErr (mkFrame 0 [0x3e, 0xd0, 0x00])
+          (flipAt 72 [24, 25, 30, 31, 34, 37, 38, 41, 42, 43, 44, 45, 47, 48])) with
+        | .ok _ => true | .error _ => false) = true := by decide +kernel
+      split at h
+      · next y hy => exact ⟨y, hy⟩
+      · cases h)
+
+/-- two byte strings of the same length with the same bits are equal -/
+theorem eq_of_bits_agree (f g : List UInt8) (hlen : f.length = g.length)
+    (h : ∀ p, (bitsOfBytes f).getD p false = (bitsOfBytes g).getD p false) : f = g := by
+  apply List.ext_getElem hlen
+  intro i h1 h2
+  apply UInt8.toNat_inj.mp
+  have hb : byteAt f i = byteAt g i := by
+    apply Nat.eq_of_testBit_eq
+    intro j
+    by_cases hj : j < 8
+    · have a := getD_bitsOfBytes f i (7 - j) (by omega)
+      have b := getD_bitsOfBytes g i (7 - j) (by omega)
+      have e7 : 7 - (7 - j) = j := by omega
+      rw [e7] at a b
+      rw [← a, ← b, h]
+    · rw [testBit_byteAt_ge _ _ _ (by omega), testBit_byteAt_ge _ _ _ (by omega)]
+  unfold byteAt at hb
+  simpa [List.getD_eq_getElem?_getD, List.getElem?_eq_getElem h1, List.getElem?_eq_getElem h2]
+    using hb
+
+/-- **Minimum distance, stated on two frames.** Two distinct valid frames (each accepted by
+`frameNew` with nothing following it) of the same length differ in at least 4 bit positions.
+`xorBits (bitsOfBytes f) (bitsOfBytes g)` is `true` exactly at the bit positions at which `f` and `g`
+differ (`getD_xorBits`). No hypothesis on where they differ is needed: frames of equal length have the
+same preamble and the same length field. -/
+theorem distinct_frames_distance_ge4 (f g : List UInt8) (x y : Frame)
+    (hf : frameNew f = .ok x) (hfl : f.length = x.frameLen)
+    (hg : frameNew g = .ok y) (hgl : g.length = y.frameLen)
+    (hlen : f.length = g.length) (hne : f ≠ g) :
+    4 ≤ (xorBits (bitsOfBytes f) (bitsOfBytes g)).count true := by
+  have vf := valid_facts f x hf hfl
+  have vg := valid_facts g y hg hgl
+  have hbl : (bitsOfBytes f).length = (bitsOfBytes g).length := by
+    rw [length_bitsOfBytes, length_bitsOfBytes, hlen]
+  have hz : crcRem 0 (xorBits (bitsOfBytes f) (bitsOfBytes g)) = 0 := by
+    have := crcRem_linear 0 0 _ _ hbl
+    rw [Nat.xor_self, vf.2.2.2, vg.2.2.2] at this
+    simpa using this
+  have hel : (xorBits (bitsOfBytes f) (bitsOfBytes g)).length ≤ 8400 := by
+    rw [length_xorBits _ _ hbl, length_bitsOfBytes]; omega
+  apply Nat.le_of_not_lt
+  intro hlt
+  have hc : (xorBits (bitsOfBytes f) (bitsOfBytes g)).count true = 0 ∨
+      (xorBits (bitsOfBytes f) (bitsOfBytes g)).count true = 2 ∨
+      (xorBits (bitsOfBytes f) (bitsOfBytes g)).count true % 2 = 1 := by omega
+  rcases hc with h | h | h
+  · apply hne
+    apply eq_of_bits_agree f g hlen
+    intro p
+    have hx := getD_xorBits _ _ hbl p
+    rw [count_true_zero _ h] at hx
+    have hr : ∀ n, (List.replicate n false).getD p false = false := by
+      intro n
+      rw [List.getD_eq_getElem?_getD, List.getElem?_replicate]
+      split <;> rfl
+    rw [hr] at hx
+    simpa using hx.symm
+  · exact crcRem_count_two_ne_zero _ hel h hz
+  · exact crcRem_odd_ne_zero _ h hz
+
+/-- two frames at distance exactly 14 (the generator laid over the payload of the 9-byte frame):
+both valid, same length, distinct -/
+example :
+    let f := mkFrame 0 [0x3e, 0xd0, 0x00]
+    let g := applyErr f (flipAt 72 [24, 25, 30, 31, 34, 37, 38, 41, 42, 43, 44, 45, 47, 48])
+    (∃ x, frameNew f = .ok x ∧ f.length = x.frameLen) ∧
+    (match frameNew g with | .ok y => decide (g.length = y.frameLen) | .error _ => false) = true ∧
+    f.length = g.length ∧ f ≠ g ∧ (xorBits (bitsOfBytes f) (bitsOfBytes g)).count true = 14 := by
+  refine ⟨⟨mkFrameResult 0 [0x3e, 0xd0, 0x00], ?_⟩, ?_⟩ <;> decide +kernel
+
 end Rtcm.C04
